@@ -167,7 +167,7 @@ def map_notes(seed, off, size, be, tag, fidx=0):
     seed.bound(pos, fidx)
 
 
-VMCI = "OSRELEASE=3.12.28\nPAGESIZE=4096\nSYMBOL(init_level4_pgt)=ffffffff81010000\nNUMBER(phys_base)=0\n"
+VMCI = "OSRELEASE=3.12.28\nPAGESIZE=0004096\nSYMBOL(init_level4_pgt)=ffffffff81010000\nNUMBER(phys_base)=0\n"
 
 
 def elf_seed(d, name, ei_class, ei_data, machine, notes=True, unaligned=False, pagesize_note=True,
@@ -295,15 +295,17 @@ def map_diskdump(seed, fidx=0, layout="64", be=False, maxdesc=8):
 
 
 def diskdump_seed(d, name, arch="x86_64", layout="64", version=6, flattened=False, split=None,
-                  methods=("raw", "zlib", "snappy", "zstd"), extra=""):
+                  methods=("raw", "zlib", "snappy", "zstd"), extra="", pfns=None):
     data = ""
     for i, m in enumerate(methods):
-        pfn = i if split is None else split[0] + i
+        pfn = pfns[i] if pfns is not None else (i if split is None else split[0] + i)
         data += "@0x%x %s\n%02x*0x800 %02x*0x800\n" % (pfn * 0x1000, m, 0x41 + i, 0x61 + i)
     open(os.path.join(d, name + ".data"), "w").write(data)
     open(os.path.join(d, name + ".vmci"), "w").write(VMCI)
     nb = b""
-    for nm, desc, ty in ((b"ERASEINFO\0", b"erase symbol foo\n", 0), (b"CORE\0", b"\x11" * 24, 4)):
+    # for header versions >= 4 the library takes VMCOREINFO from the ELF notes
+    for nm, desc, ty in ((b"VMCOREINFO\0", VMCI.encode(), 0), (b"ERASEINFO\0", b"erase symbol foo\n", 0),
+                         (b"CORE\0", b"\x11" * 24, 4)):
         e = ">" if arch in ("ppc64", "s390x") else "<"
         nb += struct.pack(e + "III", len(nm), len(desc), ty) + nm + b"\0" * ((-len(nm)) % 4)
         nb += desc + b"\0" * ((-len(desc)) % 4)
@@ -579,6 +581,16 @@ def build_seeds(d):
     p2 = diskdump_seed(d, "kdsp2", "x86_64", "64", split=(2, 4), methods=("zlib", "raw"))
     s = Seed("kdsplit", "diskdump", [p1, p2]); map_diskdump(s, 0, "64", maxdesc=2); map_diskdump(s, 1, "64", maxdesc=2)
     seeds.append(s)
+    # three files with longer windows and gaps inside them (page map walks across files)
+    q1 = diskdump_seed(d, "kdsq1", "x86_64", "64", split=(0, 9), methods=("raw",) * 6, pfns=(0, 1, 2, 3, 4, 5))
+    q2 = diskdump_seed(d, "kdsq2", "x86_64", "64", split=(9, 20), methods=("raw", "zlib", "raw", "raw", "raw"),
+                       pfns=(9, 10, 11, 14, 15))
+    q3 = diskdump_seed(d, "kdsq3", "x86_64", "64", split=(20, 48), methods=("raw", "raw", "zlib", "raw"),
+                       pfns=(20, 21, 30, 40))
+    s = Seed("kdsplit3", "diskdump", [q1, q2, q3])
+    for i in range(3):
+        map_diskdump(s, i, "64", maxdesc=1)
+    seeds.append(s)
     seeds.append(lkcd_seed(d, "lkrle", 1, ["compress", "compress", "raw", "compress"]))
     seeds.append(lkcd_seed(d, "lkgz", 2, ["compress", "raw", "compress"]))
     seeds.append(sadump_seed(d, "sadsingle", "single", 0))
@@ -644,4 +656,50 @@ def corrupt_values(f, data, wraps="none"):
         if v != orig and v not in seen:
             seen.add(v)
             out.append(v)
+    return out
+
+
+def window_cases(seed):
+    """Split sets: for each file the PFN window (start_pfn_64, end_pfn_64; also the 32-bit
+    start_pfn/end_pfn) set to every pair of interesting boundaries: overlapping the neighbours,
+    inverted, equal, beyond max_mapnr.  Returns [(what, patches)]."""
+    wins = []
+    for fi in range(len(seed.files)):
+        fs = {f.name: f for f in seed.fields if f.fidx == fi}
+        if "sub.start_pfn_64" not in fs:
+            return []
+        wins.append((fs["sub.start_pfn_64"], fs["sub.end_pfn_64"], fs["sub.start_pfn"], fs["sub.end_pfn"]))
+    bset = {0, 1, 0x40, 0x41, 1 << 63, (1 << 64) - 1}
+    for fs_, fe_, _, _ in wins:
+        for f in (fs_, fe_):
+            v = f.get(seed.data[f.fidx])
+            bset |= {v, v + 1, max(0, v - 1), (v + 3)}
+    bl = sorted(bset)
+    out = []
+    for fi, (fs_, fe_, f32s, f32e) in enumerate(wins):
+        so, eo = fs_.get(seed.data[fi]), fe_.get(seed.data[fi])
+        for a in bl:
+            for b in bl:
+                if (a, b) == (so, eo):
+                    continue
+                patches = [(fi, fs_.off, fs_.enc(a)), (fi, fe_.off, fe_.enc(b)),
+                           (fi, f32s.off, f32s.enc(a)), (fi, f32e.off, f32e.enc(b))]
+                out.append(("%s: file %d window = [0x%x, 0x%x)" % (seed.name, fi, a, b), patches))
+    return out
+
+
+def pagesize_cases(seed):
+    """Every PAGESIZE=<digits> in the seed (VMCOREINFO text) replaced by other values with the same
+    number of digits: smaller / larger powers of two, non-powers, zero.  Returns [(what, patches)]."""
+    import re
+    out = []
+    for fi, data in enumerate(seed.data):
+        for m in re.finditer(rb"PAGESIZE=(\d+)", data):
+            n = len(m.group(1))
+            orig = int(m.group(1))
+            for v in (0, 1, 256, 512, 1024, 2048, 4096, 8192, 16384, 65536, 262144, 524288, 4095, 4097, 3000,
+                      10 ** n - 1):
+                if v != orig and len(str(v)) <= n:
+                    out.append(("%s: VMCOREINFO PAGESIZE=%d (file %d at 0x%x)" % (seed.name, v, fi, m.start(1)),
+                                [(fi, m.start(1), str(v).zfill(n).encode())]))
     return out
